@@ -26,8 +26,8 @@ RULE = ("paths: Hypothesis draws flavour (posix / windows pure paths), base_path
         "root at some prefix, a leading '//', depth > 2 or a windows-special segment; distinct by hash of the case.")
 ASSUMPTIONS = [
     "windows flavour is checked lexically through PureWindowsPath (as the repository's own test does); no real Windows filesystem",
-    "known findings (KNOWN_FINDINGS): windows-flavour segments containing a backslash or a drive are re-parsed when joined "
-    "to the base (alias: virtual path no longer names the location addressed); STOR/APPE aimed at the virtual root probe base_path.parent",
+    "known finding (KNOWN_FINDINGS): windows-flavour segments containing a backslash or a drive are re-parsed when joined "
+    "to the base (alias: virtual path no longer names the location addressed)",
 ]
 REPLAY_ATTEMPTS = 2
 
